@@ -12,7 +12,7 @@ def _helper_sum_fact_xk(n, x):
     n_fact = factorial(n)
     k_factorial = scipy.special.factorial(np.arange(n + 1))
     x_power = np.power(abs(x), np.arange(n + 1))
-    res = n_fact * np.dot(x_power, k_factorial)
+    res = n_fact * np.dot(x_power, 1.0 / k_factorial)
 
     return res
 
@@ -32,8 +32,12 @@ def integral_xn_exp_minus_x(n: int, a: float, b: float, alpha: float):
     def helper(u):
         return _helper_sum_fact_xk(n, u * alpha) * np.exp(-abs(u) * alpha) / aux
 
-    if a == -np.inf:
-        return -helper(b)
+    if b <= 0:
+        # x^n is of the sign of (-1)^n on the negative half-line
+        sign = -1 if n % 2 else 1
+        if a == -np.inf:
+            return sign * helper(b)
+        return sign * (helper(b) - helper(a))
 
     if b == np.inf:
         return helper(a)
